@@ -194,10 +194,15 @@ Variables (o : opts) (ms : list mig) (k : N) (d : dbstate).
 Hypothesis Hasc : ascending ms = true.
 Hypothesis Hi32 : versions_u32 ms = true.
 Hypothesis Hat : at_version k d = true.
-Hypothesis Hnc : id_conflict ms d = false.
 
 Definition FIN : dbstate := advanced o (pending k ms) d.
-Definition reach (c : dbstate) : Prop := c = d \/ c = sql_create_vt d \/ c = bootstrap d \/ c = FIN.
+(* do all id comparisons pass on the ids recorded in d?  If not, nothing can ever be published *)
+Definition OK : bool := ids_ok ms d.
+Definition finp (x : dbstate) : Prop := OK = true /\ x = FIN.
+Definition reach (c : dbstate) : Prop := c = d \/ c = sql_create_vt d \/ c = bootstrap d \/ finp c.
+(* outcome of running the rest of an instance's program alone, from committed database c *)
+Definition good (c : dbstate) (ci : dbstate * inst) : Prop :=
+  (fst ci = c \/ finp (fst ci)) /\ (OK = false -> i_res (snd ci) <> Some ROk).
 
 Lemma create_idem : forall c, sql_create_vt (sql_create_vt c) = sql_create_vt c.
 Proof. intros [[t|] ap]; reflexivity. Qed.
@@ -208,16 +213,16 @@ Qed.
 
 Lemma reach_create : forall c, reach c -> reach (sql_create_vt c).
 Proof.
-  intros c [ -> | [ -> | [ -> | -> ]]]; unfold reach.
+  intros c [ -> | [ -> | [ -> | [Hok ->] ]]]; unfold reach.
   - right; left; reflexivity.
   - right; left. apply create_idem.
   - right; right; left. apply bootstrap_idempotent.
-  - right; right; right. reflexivity.
+  - right; right; right. split; [exact Hok|reflexivity].
 Qed.
 Lemma reach_alter : forall c c', reach c -> sql_alter_vt c = EngOk c' -> reach c'.
 Proof.
   intros c c' Hc Ha. pose proof (alter_ok_bootstrap _ _ Ha) as ->.
-  destruct Hc as [ -> | [ -> | [ -> | -> ]]]; unfold reach.
+  destruct Hc as [ -> | [ -> | [ -> | [Hok ->] ]]]; unfold reach.
   - right; right; left; reflexivity.
   - right; right; left. apply bootstrap_create.
   - right; right; left. apply bootstrap_idem.
@@ -227,17 +232,17 @@ Qed.
 Lemma has_id_bootstrap_fix : forall c rows, d_vt c = Some (mkVt true rows) -> bootstrap c = c.
 Proof. intros [[[[] r]|] ap] rows H; simpl in H; try discriminate. reflexivity. Qed.
 
-Lemma reach_has_id : forall c rows, reach c -> d_vt c = Some (mkVt true rows) -> c = bootstrap d \/ c = FIN.
+Lemma reach_has_id : forall c rows, reach c -> d_vt c = Some (mkVt true rows) -> c = bootstrap d \/ finp c.
 Proof.
-  intros c rows [ -> | [ -> | [ -> | -> ]]] H.
+  intros c rows [ -> | [ -> | [ -> | Hfp ]]] H.
   - left. symmetry. eapply has_id_bootstrap_fix. exact H.
   - left. rewrite <- bootstrap_create. symmetry. eapply has_id_bootstrap_fix. exact H.
   - left. reflexivity.
-  - right. reflexivity.
+  - right. exact Hfp.
 Qed.
 
 Lemma txn_complete : forall c k' rows i2,
-  at_version k' c = true -> id_conflict ms c = false -> d_vt c = Some (mkVt true rows) ->
+  at_version k' c = true -> ids_ok ms c = true -> d_vt c = Some (mkVt true rows) ->
   i_res i2 = None -> i_buf i2 = Some c -> i_lock i2 = Shared ->
   fst (run_list [] o [] (plan o (decode_version (max_version rows)) (decode_ids rows) ms) (c, i2))
   = advanced o (pending k' ms) c.
@@ -246,8 +251,8 @@ Proof.
   destruct (at_version_parts _ _ Hk) as [H1 [H2 H3]]. unfold db_rows in H2, H3. rewrite Hvt in H2, H3. simpl in H2, H3.
   rewrite (decode_max_at k' rows H1 H2 H3).
   destruct (plan_run o k' (decode_ids rows) ms c rows i2 c) as [n Hn]; auto.
-  - intros m Hm. apply (id_check_none_free k' rows m H1 H2). intros r0 Hr0.
-    apply (conflict_free ms c m r0 Hfree Hm). rewrite (has_id_bootstrap_fix c rows Hvt). unfold db_rows. rewrite Hvt. exact Hr0.
+  - intros m Hm. pose proof (ids_ok_spec ms c Hfree m Hm) as Hid.
+    rewrite (has_id_bootstrap_fix c rows Hvt) in Hid. unfold db_rows in Hid. rewrite Hvt in Hid. exact Hid.
   - intros m r _ Hv Hin. pose proof (rows_within_In _ _ _ H2 Hin). apply N.ltb_lt in Hv. lia.
   - rewrite Hn, Hl. simpl. unfold advanced. rewrite (has_id_bootstrap_fix c rows Hvt). unfold db_rows. rewrite Hvt. simpl.
     destruct (pending k' ms); simpl; [|reflexivity].
@@ -275,15 +280,27 @@ Qed.
 Lemma at_version_FIN : at_version (top k ms) FIN = true.
 Proof. unfold FIN. apply at_version_advanced; assumption. Qed.
 
-(* the first read of the transaction: from here on, alone, the instance changes nothing or publishes FIN *)
+Lemma txn_fails : forall c rows i2,
+  ids_ok ms c = false -> d_vt c = Some (mkVt true rows) -> i_res i2 = None ->
+  fst (run_list [] o [] (plan o (decode_version (max_version rows)) (decode_ids rows) ms) (c, i2)) = c /\
+  i_res (snd (run_list [] o [] (plan o (decode_version (max_version rows)) (decode_ids rows) ms) (c, i2))) <> Some ROk.
+Proof.
+  intros c rows i2 Hno Hvt Hr. apply run_list_no_commit.
+  - apply plan_no_commit. destruct (ids_not_ok_ex ms c Hno) as [m [Hm Hne]]. exists m. split; [exact Hm|].
+    rewrite (has_id_bootstrap_fix c rows Hvt) in Hne. unfold db_rows in Hne. rewrite Hvt in Hne. exact Hne.
+  - apply plan_instrs.
+  - rewrite Hr. discriminate.
+Qed.
+
+(* the first read of the transaction: from here on, alone, the instance changes nothing or publishes FIN —
+   and the latter only if every id comparison passes *)
 Lemma txn_sound : forall c i oth,
   reach c -> i_res i = None -> i_buf i = None ->
   i_res (snd (exec [] o oth IReadMax c i)) = None ->
   fst (exec [] o oth IReadMax c i) = c /\
   i_buf (snd (exec [] o oth IReadMax c i)) = Some c /\
   i_lock (snd (exec [] o oth IReadMax c i)) = Shared /\
-  (fst (finish c (mkP (snd (exec [] o oth IReadMax c i)) [IReadIds] [])) = c \/
-   fst (finish c (mkP (snd (exec [] o oth IReadMax c i)) [IReadIds] [])) = FIN).
+  good c (finish c (mkP (snd (exec [] o oth IReadMax c i)) [IReadIds] [])).
 Proof.
   intros c i oth Hc Hr Hb. destruct i as [res txn buf lk ver ids lg n]. simpl in Hr, Hb. subst res buf.
   simpl. unfold acquire_shared. simpl.
@@ -291,18 +308,22 @@ Proof.
   unfold sql_select_max, view; simpl. destruct (d_vt c) as [[hid rows]|] eqn:Evt; simpl; [|discriminate].
   intros _. split; [reflexivity|]. split; [reflexivity|]. split; [reflexivity|].
   unfold finish; simpl. unfold sql_select_ids, view; simpl. rewrite Evt. simpl.
-  destruct hid; simpl; [|left; reflexivity].
-  destruct (reach_has_id c rows Hc Evt) as [Hc'|Hc'].
-  - right.
-    assert (Hk' : at_version k c = true) by (rewrite Hc'; apply at_version_bootstrap; exact Hat).
-    assert (Hf' : id_conflict ms c = false) by (rewrite Hc', id_conflict_bootstrap; exact Hnc).
-    match goal with |- context [run_list [] o [] _ (c, ?i2)] => rewrite (txn_complete c k rows i2 Hk' Hf' Evt eq_refl eq_refl eq_refl) end.
-    rewrite Hc'. unfold FIN. apply advanced_bootstrap.
-  - left.
-    assert (Hk' : at_version (top k ms) c = true) by (rewrite Hc'; apply at_version_FIN).
-    assert (Hf' : id_conflict ms c = false) by (rewrite Hc'; unfold FIN; apply no_conflict_advanced; assumption).
-    match goal with |- context [run_list [] o [] _ (c, ?i2)] => rewrite (txn_complete c (top k ms) rows i2 Hk' Hf' Evt eq_refl eq_refl eq_refl) end.
-    rewrite pending_top. destruct c as [vt ap]; simpl in Evt; subst vt. apply advanced_nil_fix.
+  destruct hid; simpl; [|split; [left; reflexivity|intros _; discriminate]].
+  destruct (ids_ok ms c) eqn:Eok.
+  - (* every comparison passes on the ids of c *)
+    destruct (reach_has_id c rows Hc Evt) as [Hc'|[Hok Hc']].
+    + assert (Hk' : at_version k c = true) by (rewrite Hc'; apply at_version_bootstrap; exact Hat).
+      assert (HOK : OK = true) by (unfold OK; rewrite <- ids_ok_bootstrap, <- Hc'; exact Eok).
+      split; [right|intros Hno; rewrite HOK in Hno; discriminate].
+      match goal with |- context [run_list [] o [] _ (c, ?i2)] => rewrite (txn_complete c k rows i2 Hk' Eok Evt eq_refl eq_refl eq_refl) end.
+      split; [exact HOK|]. rewrite Hc'. unfold FIN. apply advanced_bootstrap.
+    + assert (Hk' : at_version (top k ms) c = true) by (rewrite Hc'; apply at_version_FIN).
+      split; [left|intros Hno; rewrite Hok in Hno; discriminate].
+      match goal with |- context [run_list [] o [] _ (c, ?i2)] => rewrite (txn_complete c (top k ms) rows i2 Hk' Eok Evt eq_refl eq_refl eq_refl) end.
+      rewrite pending_top. destruct c as [vt ap]; simpl in Evt; subst vt. apply advanced_nil_fix.
+  - (* some comparison fails: the block returns Err before any COMMIT *)
+    match goal with |- good c (run_list [] o [] _ (c, ?i2)) => destruct (txn_fails c rows i2 Eok Evt eq_refl) as [A B] end.
+    split; [left; exact A|intros _; exact B].
 Qed.
 
 (* ---------- the invariant ---------- *)
@@ -312,13 +333,13 @@ Definition prelude_suffix (l : list instr) : Prop :=
 Definition pinv (c : dbstate) (p : pinst) : Prop :=
   p_faults p = [] /\
   match i_res (p_inst p) with
-  | Some _ => i_lock (p_inst p) = Unlocked /\ i_buf (p_inst p) = None
+  | Some _ => i_lock (p_inst p) = Unlocked /\ i_buf (p_inst p) = None /\ (OK = false -> i_res (p_inst p) <> Some ROk)
   | None =>
       match i_buf (p_inst p) with
       | None => i_lock (p_inst p) = Unlocked /\ prelude_suffix (p_todo p)
       | Some _ => i_lock (p_inst p) <> Unlocked /\
                   (p_todo p = [IReadIds] \/ (Forall txn_instr (p_todo p) /\ terminal_last (p_todo p))) /\
-                  (fst (finish c p) = c \/ fst (finish c p) = FIN)
+                  good c (finish c p)
       end
   end.
 
@@ -329,23 +350,25 @@ Proof.
   destruct H as [H _]. contradiction.
 Qed.
 
-Lemma settle_inv : forall c i1 l b1,
-  i_res i1 = None -> i_buf i1 = Some b1 -> i_lock i1 <> Unlocked -> Forall txn_instr l -> terminal_last l ->
-  (fst (run_list [] o [] l (c, i1)) = c \/ fst (run_list [] o [] l (c, i1)) = FIN) ->
-  pinv c (settle (mkP i1 l [])).
+Lemma settle_inv : forall c ci l b1,
+  fst ci = c -> i_res (snd ci) = None -> i_buf (snd ci) = Some b1 -> i_lock (snd ci) <> Unlocked ->
+  Forall txn_instr l -> terminal_last l -> good c (run_list [] o [] l ci) ->
+  pinv c (settle (mkP (snd ci) l [])).
 Proof.
-  intros c i1 l b1 Hr Hb Hl Hf Ht Hfin. unfold settle; simpl. rewrite Hr.
-  assert (Hkeep : pinv c (mkP i1 l [])).
+  intros c ci l b1 Hc Hr Hb Hl Hf Ht Hfin. subst c. unfold settle; simpl. rewrite Hr.
+  assert (Hkeep : pinv (fst ci) (mkP (snd ci) l [])).
   { split; [reflexivity|]. simpl. rewrite Hr, Hb. split; [exact Hl|]. split; [right; split; [exact Hf|exact Ht]|].
-    rewrite finish_txn by exact Hf. exact Hfin. }
+    rewrite finish_txn by exact Hf. rewrite <- surjective_pairing. exact Hfin. }
   destruct l as [|x l]; [exact Hkeep|]. destruct x; try exact Hkeep.
-  split; [reflexivity|]. simpl. split; reflexivity.
+  split; [reflexivity|]. simpl. split; [reflexivity|]. split; [reflexivity|]. intros _. discriminate.
 Qed.
 
 Lemma pinv_finished : forall c i1 l r,
-  i_res i1 = Some r -> i_lock i1 = Unlocked -> i_buf i1 = None -> pinv c (settle (mkP i1 l [])).
+  i_res i1 = Some r -> i_lock i1 = Unlocked -> i_buf i1 = None -> (OK = false -> i_res i1 <> Some ROk) ->
+  pinv c (settle (mkP i1 l [])).
 Proof.
-  intros c i1 l r H A B. unfold settle; simpl. rewrite H. split; [reflexivity|]. simpl. rewrite H. split; assumption.
+  intros c i1 l r H A B N. unfold settle; simpl. rewrite H. split; [reflexivity|]. simpl. rewrite H.
+  split; [exact A|]. split; [exact B|]. rewrite <- H. exact N.
 Qed.
 
 Lemma pstep_inv : forall oth c p,
@@ -367,15 +390,15 @@ Proof.
     + eapply reach_alter; [exact Hc|exact H].
     + (* a commit went through *)
       subst x. destruct (i_buf (p_inst p)) as [b|] eqn:Eb.
-      * destruct Hp as [Hl [Hshape Hfin]].
+      * destruct Hp as [Hl [Hshape [Hfin _]]].
         destruct (exec_vs_solo o oth ICommit c (p_inst p) b Eb (or_introl I)) as [He|[_ [He _]]];
           [|rewrite He in H; discriminate].
         unfold finish in Hfin. rewrite Et in Hfin.
         assert (Hfin' : fst (run_list [] o [] r (exec [] o [] ICommit c (p_inst p))) = c \/
-                        fst (run_list [] o [] r (exec [] o [] ICommit c (p_inst p))) = FIN).
+                        finp (fst (run_list [] o [] r (exec [] o [] ICommit c (p_inst p))))).
         { simpl run_list in Hfin. rewrite Er in Hfin. exact Hfin. }
         rewrite <- He in Hfin'. rewrite (run_list_finished _ _ _ _ _ _ H) in Hfin'.
-        destruct Hfin' as [Hfin'|Hfin']; rewrite Hfin'; [exact Hc|right; right; right; reflexivity].
+        destruct Hfin' as [Hfin'|Hfin']; [rewrite Hfin'; exact Hc|right; right; right; exact Hfin'].
       * destruct Hp as [_ [Hs|[Hs|[Hs|Hs]]]]; discriminate.
   - (* the instance's own invariant *)
     destruct (i_buf (p_inst p)) as [b|] eqn:Eb.
@@ -390,11 +413,11 @@ Proof.
            pose proof (exec_readids_running o c (p_inst p) b Eb) as Hrun.
            set (E := exec [] o [] IReadIds c (p_inst p)) in *.
            destruct (i_res (snd E)) eqn:Er1.
-           ++ destruct (Hclean _ Er eq_refl) as [A B]. eapply pinv_finished; eassumption.
+           ++ destruct (Hclean _ Er eq_refl) as [A B].
+              eapply pinv_finished; [exact Er1|exact A|exact B|exact (proj2 Hfin)].
            ++ destruct (Hrun eq_refl) as [A [B C]]. cbv iota.
-              eapply settle_inv; [exact Er1 | exact B | rewrite C; exact Hl | apply plan_txn_instr | apply plan_terminal_last | ].
-              rewrite (surjective_pairing E) in Hfin. rewrite A in Hfin. exact Hfin.
-        -- eapply pinv_finished; eassumption.
+              eapply settle_inv; [exact A | exact Er1 | exact B | rewrite C; exact Hl | apply plan_txn_instr | apply plan_terminal_last | exact Hfin].
+        -- eapply pinv_finished; [exact He|exact Hl1|exact Hb1|intros _; rewrite He; discriminate].
       * (* inside the blocks *)
         destruct Hs as [Hs Hterm].
         inversion Hs as [|? ? Hx Hr']; subst.
@@ -403,28 +426,28 @@ Proof.
         rewrite Hnx. clear Hnx.
         destruct (exec_vs_solo o oth x c (p_inst p) b Eb (or_introl Hx)) as [He|[Hc1 [He [Hl1 Hb1]]]].
         -- rewrite He. unfold finish in Hfin. rewrite Et in Hfin.
-           assert (Hfin' : fst (run_list [] o [] r (exec [] o [] x c (p_inst p))) = c \/
-                           fst (run_list [] o [] r (exec [] o [] x c (p_inst p))) = FIN).
+           assert (Hfin' : good c (run_list [] o [] r (exec [] o [] x c (p_inst p)))).
            { destruct x; simpl in Hx; try destruct Hx; simpl run_list in Hfin; rewrite Er in Hfin; exact Hfin. }
            pose proof (exec_finished_clean [] o [] x c (p_inst p)) as Hclean.
            pose proof (exec_txn_running o x c (p_inst p) b Hx Eb Hl) as Hrun.
            set (E := exec [] o [] x c (p_inst p)) in *.
            destruct (i_res (snd E)) eqn:Er1.
-           ++ destruct (Hclean _ Er eq_refl) as [A B]. eapply pinv_finished; eassumption.
+           ++ destruct (Hclean _ Er eq_refl) as [A B].
+              rewrite (run_list_finished _ _ _ r E _ Er1) in Hfin'.
+              eapply pinv_finished; [exact Er1|exact A|exact B|exact (proj2 Hfin')].
            ++ destruct (Hrun eq_refl) as [A [[b' B] C]].
               assert (Hterm' : terminal_last r).
               { destruct (terminal_last_tail _ _ Hterm) as [[_ Htx]|Ht']; [|exact Ht'].
                 exfalso. apply (terminal_finishes [] o [] x c (p_inst p) Htx). exact Er1. }
-              rewrite A. eapply settle_inv; [exact Er1 | exact B | exact C | exact Hr' | exact Hterm' | ].
-              rewrite (surjective_pairing E) in Hfin'. rewrite A in Hfin'. exact Hfin'.
-        -- rewrite Hc1. rewrite He. eapply pinv_finished; eassumption.
+              rewrite A. eapply settle_inv; [exact A | exact Er1 | exact B | exact C | exact Hr' | exact Hterm' | exact Hfin'].
+        -- rewrite Hc1. eapply pinv_finished; [exact He|exact Hl1|exact Hb1|intros _; rewrite He; discriminate].
     + (* still outside the transaction's first read *)
       destruct Hp as [Hl Hsuf].
       destruct p as [[res txn buf lk ver ids lg n] todo fl]. simpl in Hf, Er, Eb, Et, Hl. subst res buf fl lk todo.
       destruct Hsuf as [Hs|[Hs|[Hs|Hs]]]; injection Hs as -> ->.
       * (* ICreate *)
         simpl. destruct (create_is_write c); [destruct (can_autocommit_write oth)|destruct (can_shared oth)];
-          unfold pinv, settle; simpl; repeat split; auto; unfold prelude_suffix; auto.
+          unfold pinv, settle; simpl; repeat split; auto; unfold prelude_suffix; auto; try (intros _; discriminate).
       * (* IAlter *)
         simpl. destruct (sql_alter_vt c); [destruct (can_autocommit_write oth)|];
           unfold pinv, settle; simpl; repeat split; auto; unfold prelude_suffix; auto.
@@ -436,7 +459,10 @@ Proof.
         pose proof (txn_sound c (mkInst None txn None Unlocked ver ids lg n) oth Hc eq_refl eq_refl) as Hsound.
         set (E := exec [] o oth IReadMax c (mkInst None txn None Unlocked ver ids lg n)) in *.
         destruct (i_res (snd E)) eqn:Er1.
-        -- destruct (Hclean _ eq_refl eq_refl) as [A B]. eapply pinv_finished; eassumption.
+        -- destruct (Hclean _ eq_refl eq_refl) as [A B].
+           eapply pinv_finished; [exact Er1|exact A|exact B|].
+           intros _ Hok. unfold E in Hok.
+           apply (exec_ok_only_commit [] o oth IReadMax c (mkInst None txn None Unlocked ver ids lg n) eq_refl) in Hok. discriminate.
         -- destruct (Hsound eq_refl) as [A [B [C D]]].
            rewrite A. unfold settle; simpl. rewrite Er1. split; [reflexivity|]. simpl. rewrite Er1, B.
            split; [rewrite C; discriminate|]. split; [left; reflexivity|exact D].
@@ -485,36 +511,58 @@ Proof.
   intros n sched p Hp.
   destruct (steps_inv sched (init_sys n d) (init_inv n)) as [_ Hall]. destruct (Hall p Hp) as [_ H].
   destruct (i_res (p_inst p)) as [r|].
-  - split; [destruct r; [left; reflexivity|right; eexists; reflexivity]|exact H].
+  - split; [destruct r; [left; reflexivity|right; eexists; reflexivity]|]. destruct H as [A [B _]]. split; assumption.
   - destruct (i_buf (p_inst p)).
     + destruct H as [_ [[Hs|[_ [pre [t [Hs _]]]]] _]]; rewrite Hs; [discriminate|].
       destruct pre; discriminate.
     + destruct H as [_ [Hs|[Hs|[Hs|Hs]]]]; rewrite Hs; discriminate.
 Qed.
+(* when some id comparison fails on the recorded ids: nothing is ever committed, nobody returns Ok *)
+Theorem conflict_commits_nothing : forall n sched, OK = false ->
+  let c := s_db (steps o ms sched (init_sys n d)) in c = d \/ c = sql_create_vt d \/ c = bootstrap d.
+Proof.
+  intros n sched Hno c. destruct (at_most_once_reach n sched) as [H|[H|[H|[Hok _]]]]; auto.
+  rewrite Hno in Hok. discriminate.
+Qed.
+
+Theorem conflict_never_ok : forall n sched p, OK = false ->
+  In p (s_insts (steps o ms sched (init_sys n d))) -> i_res (p_inst p) <> Some ROk.
+Proof.
+  intros n sched p Hno Hp.
+  destruct (steps_inv sched (init_sys n d) (init_inv n)) as [_ Hall]. destruct (Hall p Hp) as [_ H].
+  destruct (i_res (p_inst p)) as [r|] eqn:E; [|discriminate].
+  destruct H as [_ [_ N]]. exact (N Hno).
+Qed.
 End Conc.
 
 (* ---------- the statements pinned in Properties/C11.v ---------- *)
+Lemma finp_run : forall o ms k d c, ascending ms = true -> at_version k d = true ->
+  finp o ms k d c -> c = fst (run [] o ms d).
+Proof.
+  intros o ms k d c Ha Hk [Hok ->]. destruct (run_from_k_gen o ms k d Ha Hk Hok) as [Hd _]. symmetry. exact Hd.
+Qed.
+
 Theorem at_most_once : forall o ms k d n sched,
-  ascending ms = true -> versions_u32 ms = true -> at_version k d = true -> id_conflict ms d = false ->
+  ascending ms = true -> versions_u32 ms = true -> at_version k d = true ->
   let c := s_db (steps o ms sched (init_sys n d)) in
   c = d \/ c = sql_create_vt d \/ c = bootstrap d \/ c = fst (run [] o ms d).
 Proof.
-  intros o ms k d n sched Ha Hi Hk Hf c.
-  destruct (run_from_k o ms k d Ha Hk Hf) as [Hd _]. rewrite Hd.
-  exact (at_most_once_reach o ms k d Ha Hi Hk Hf n sched).
+  intros o ms k d n sched Ha Hi Hk c.
+  destruct (at_most_once_reach o ms k d Ha Hi Hk n sched) as [H|[H|[H|H]]]; auto.
+  right; right; right. eapply finp_run; eassumption.
 Qed.
 
 (* the same, spelled out: the statements of the pending migrations are in the committed database zero
    times or exactly once, all of them, in order, and so are their version rows *)
 Theorem committed_once : forall o ms k d n sched,
-  ascending ms = true -> versions_u32 ms = true -> at_version k d = true -> id_conflict ms d = false ->
+  ascending ms = true -> versions_u32 ms = true -> at_version k d = true ->
   let c := s_db (steps o ms sched (init_sys n d)) in
   exists l, (l = [] \/ l = pending k ms) /\
     d_applied c = d_applied d ++ stmts_all o l /\
     recorded_versions c = recorded_versions d ++ map (fun m => Z.of_N (m_version m)) l.
 Proof.
-  intros o ms k d n sched Ha Hi Hk Hf c.
-  destruct (at_most_once_reach o ms k d Ha Hi Hk Hf n sched) as [H|[H|[H|H]]]; fold c in H; rewrite H.
+  intros o ms k d n sched Ha Hi Hk c.
+  destruct (at_most_once_reach o ms k d Ha Hi Hk n sched) as [H|[H|[H|[_ H]]]]; fold c in H; rewrite H.
   - exists []. split; [left; reflexivity|]. unfold stmts_all; simpl. rewrite !app_nil_r. split; reflexivity.
   - exists []. split; [left; reflexivity|]. destruct (bookkeeping_create d) as [A B].
     unfold stmts_all; simpl. rewrite !app_nil_r. split; assumption.
@@ -527,34 +575,71 @@ Proof.
 Qed.
 
 Theorem each_instance_ok_or_err : forall o ms k d n sched p,
-  ascending ms = true -> versions_u32 ms = true -> at_version k d = true -> id_conflict ms d = false ->
+  ascending ms = true -> versions_u32 ms = true -> at_version k d = true ->
   In p (s_insts (steps o ms sched (init_sys n d))) ->
   match i_res (p_inst p) with
   | Some r => (r = ROk \/ exists e, r = RErr e) /\ i_lock (p_inst p) = Unlocked /\ i_buf (p_inst p) = None
   | None => p_todo p <> []
   end.
-Proof. intros o ms k d n sched p Ha Hi Hk Hf. exact (instances_ok_or_err o ms k d Ha Hi Hk Hf n sched p). Qed.
+Proof. intros o ms k d n sched p Ha Hi Hk. exact (instances_ok_or_err o ms k d Ha Hi Hk n sched p). Qed.
+
+(* a recorded id that conflicts with a compiled one: whatever the schedule, nothing is committed and no
+   instance returns Ok *)
+Theorem conflict_blocks_everyone : forall o ms k d n sched,
+  ascending ms = true -> versions_u32 ms = true -> at_version k d = true -> ids_ok ms d = false ->
+  let s := steps o ms sched (init_sys n d) in
+  (s_db s = d \/ s_db s = sql_create_vt d \/ s_db s = bootstrap d) /\
+  forall p, In p (s_insts s) -> i_res (p_inst p) <> Some ROk.
+Proof.
+  intros o ms k d n sched Ha Hi Hk Hno s. split.
+  - exact (conflict_commits_nothing o ms k d Ha Hi Hk n sched Hno).
+  - intros p Hp. exact (conflict_never_ok o ms k d Ha Hi Hk n sched p Hno Hp).
+Qed.
+
+Lemma run_from_reach : forall o ms k d c,
+  ascending ms = true -> versions_u32 ms = true -> at_version k d = true ->
+  reach o ms k d c -> fst (run [] o ms c) = fst (run [] o ms d).
+Proof.
+  intros o ms k d c Ha Hi Hk Hc.
+  destruct (ids_ok ms d) eqn:Eok.
+  - destruct (run_from_k_gen o ms k d Ha Hk Eok) as [Hd _].
+    destruct Hc as [ -> | [ -> | [ -> | [_ ->] ]]].
+    + reflexivity.
+    + assert (E : ids_ok ms (sql_create_vt d) = true) by (rewrite ids_ok_create; exact Eok).
+      destruct (run_from_k_gen o ms k _ Ha (at_version_create _ _ Hk) E) as [H1 _]. rewrite H1, Hd. apply advanced_create.
+    + assert (E : ids_ok ms (bootstrap d) = true) by (rewrite ids_ok_bootstrap; exact Eok).
+      destruct (run_from_k_gen o ms k _ Ha (at_version_bootstrap _ _ Hk) E) as [H1 _]. rewrite H1, Hd. apply advanced_bootstrap.
+    + (* already complete: whatever the comparisons say on the new rows, nothing changes *)
+      rewrite Hd. unfold FIN.
+      pose proof (at_version_advanced o ms k d Hk Hi) as Hat'.
+      destruct (ids_ok ms (advanced o (pending k ms) d)) eqn:E2.
+      * destruct (run_from_k_gen o ms _ _ Ha Hat' E2) as [H1 _]. rewrite H1, pending_top.
+        unfold advanced at 2. apply advanced_nil_fix.
+      * destruct (run_ids_not_ok o ms _ E2) as [H1 _]. rewrite H1. reflexivity.
+  - destruct (run_ids_not_ok o ms d Eok) as [Hd _]. rewrite Hd.
+    destruct Hc as [ -> | [ -> | [ -> | [Hok _] ]]].
+    + exact Hd.
+    + assert (E : ids_ok ms (sql_create_vt d) = false) by (rewrite ids_ok_create; exact Eok).
+      destruct (run_ids_not_ok o ms _ E) as [H1 _]. rewrite H1. apply bootstrap_create.
+    + assert (E : ids_ok ms (bootstrap d) = false) by (rewrite ids_ok_bootstrap; exact Eok).
+      destruct (run_ids_not_ok o ms _ E) as [H1 _]. rewrite H1. apply bootstrap_idem.
+    + unfold OK in Hok. rewrite Eok in Hok. discriminate.
+Qed.
 
 (* once everybody has finished, any number (>= 1) of sequential re-runs ends in the sequential result *)
 Theorem retry_converges : forall o ms k d n sched retries,
-  ascending ms = true -> versions_u32 ms = true -> at_version k d = true -> id_conflict ms d = false ->
+  ascending ms = true -> versions_u32 ms = true -> at_version k d = true ->
   all_finished (steps o ms sched (init_sys n d)) = true ->
   Nat.iter (S retries) (fun c => fst (run [] o ms c)) (s_db (steps o ms sched (init_sys n d))) = fst (run [] o ms d).
 Proof.
-  intros o ms k d n sched retries Ha Hi Hk Hf _.
-  destruct (run_from_k o ms k d Ha Hk Hf) as [Hd _].
-  assert (Hone : forall c, reach o ms k d c -> fst (run [] o ms c) = fst (run [] o ms d)).
-  { intros c [ -> | [ -> | [ -> | -> ]]].
-    - reflexivity.
-    - assert (Hf' : id_conflict ms (sql_create_vt d) = false) by (rewrite id_conflict_create; exact Hf).
-      destruct (run_from_k o ms k _ Ha (at_version_create _ _ Hk) Hf') as [H1 _]. rewrite H1, Hd. apply advanced_create.
-    - assert (Hf' : id_conflict ms (bootstrap d) = false) by (rewrite id_conflict_bootstrap; exact Hf).
-      destruct (run_from_k o ms k _ Ha (at_version_bootstrap _ _ Hk) Hf') as [H1 _]. rewrite H1, Hd. apply advanced_bootstrap.
-    - destruct (run_idempotent o ms k d Ha Hi Hk Hf) as [H1 _]. rewrite Hd in H1. unfold FIN. rewrite H1. symmetry. exact Hd. }
-  assert (Hfin : reach o ms k d (fst (run [] o ms d))) by (rewrite Hd; right; right; right; reflexivity).
+  intros o ms k d n sched retries Ha Hi Hk _.
+  assert (Hfin : reach o ms k d (fst (run [] o ms d))).
+  { destruct (ids_ok ms d) eqn:Eok.
+    - destruct (run_from_k_gen o ms k d Ha Hk Eok) as [Hd _]. rewrite Hd. right; right; right. split; [exact Eok|reflexivity].
+    - destruct (run_ids_not_ok o ms d Eok) as [Hd _]. rewrite Hd. right; right; left. reflexivity. }
   induction retries as [|r IH].
-  - simpl. apply Hone. exact (at_most_once_reach o ms k d Ha Hi Hk Hf n sched).
+  - simpl. apply (run_from_reach o ms k d _ Ha Hi Hk). exact (at_most_once_reach o ms k d Ha Hi Hk n sched).
   - change (Nat.iter (S (S r)) (fun c => fst (run [] o ms c)) (s_db (steps o ms sched (init_sys n d))))
       with (fst (run [] o ms (Nat.iter (S r) (fun c => fst (run [] o ms c)) (s_db (steps o ms sched (init_sys n d)))))).
-    rewrite IH. apply Hone. exact Hfin.
+    rewrite IH. apply (run_from_reach o ms k d _ Ha Hi Hk). exact Hfin.
 Qed.
